@@ -237,7 +237,7 @@ class FromDAOState:
             objects converted using ``from_dao``, and the second element is a list of
             circular references that could not be fully resolved.
         """
-        if not value:
+        if value is None:
             return value, []
         instances = []
         circular_values: List[Any] = []
